@@ -25,7 +25,7 @@ import (
 func init() {
 	core.Register(&core.Simple{
 		Id: "C15", Lvl: "exploration", Quick: 160, Thorough: 4000, PerBatch: 40, Width: 16, Timeout: 1500,
-		RuleText: "each case is a history of 12-25 account-management requests sent by an administrator through the real connection loop (new-user, set-user, delete-user, update-user batches mixing create/modify/rename/delete; logins, names and passwords drawn from byte strings that are legal file names incl. spaces, YAML-significant text, leading/trailing blanks, high bytes, names up to 255 bytes, logins up to the 250 bytes for which '<login>.yaml' is still a legal file name; password field = new / one-zero-byte 'unchanged' marker / absent); after every step a reference model is compared with (1) login attempts for every login ever used with its current and formerly used passwords, (2) list-users and get-user replies, (3) the parsed account files, (4) a second account manager loaded from the directory. a stress batch lets five administrators create the same fresh login at the same moment (exactly one may win, and memory, file and restart must show the winner's data), then two administrators edit an account while a third deletes it (memory, file and restart must agree on whether it exists and on its name). distinct = (multiset of operation kinds in the history); non-trivial = history contains a rename, delete or password change",
+		RuleText: "each case is a history of 12-25 account-management requests sent by an administrator through the real connection loop (new-user, set-user, delete-user, update-user batches mixing create/modify/rename/delete; logins, names and passwords drawn from byte strings that are legal file names incl. spaces, YAML-significant text, leading/trailing blanks, high bytes, names up to 255 bytes, passwords up to bcrypt's 72 bytes, logins up to the 250 bytes for which '<login>.yaml' is still a legal file name; password field = new / one-zero-byte 'unchanged' marker / absent); after every step a reference model is compared with (1) login attempts for every login ever used with its current and formerly used passwords, (2) list-users and get-user replies, (3) the parsed account files, (4) a second account manager loaded from the directory. a stress batch lets five administrators create the same fresh login at the same moment (exactly one may win, and memory, file and restart must show the winner's data), then two administrators edit an account while a third deletes it (memory, file and restart must agree on whether it exists and on its name). distinct = (multiset of operation kinds in the history); non-trivial = history contains a rename, delete or password change",
 		Case:     runCase,
 		Extra: func(tier string, seed int64) []core.Batch {
 			n := 40
@@ -250,6 +250,10 @@ func (w *world) freshLogin() string {
 
 func (w *world) genPW() string {
 	r := w.c.R
+	if r.Chance(1, 10) {
+		// the longest passwords bcrypt takes: 70, 71 and exactly 72 bytes
+		return "L" + string(r.Printable(core.Pick(r, []int{69, 70, 71, 71})))
+	}
 	switch r.Intn(6) {
 	case 0:
 		return ""
